@@ -54,6 +54,15 @@ theorem map_zipWith_of_map {α κ} (f : α → κ) (F : α → α → α) (hp : 
     simp only [map_cons, cons.injEq] at h
     simp only [zipWith_cons_cons, map_cons, hp x y h.1, map_zipWith_of_map f F hp a b h.2]
 
+theorem zipWith_congr_of_map {α κ γ} (f : α → κ) (F G : α → α → γ) (hp : ∀ x y, f x = f y → F x y = G x y) :
+    ∀ a b : List α, a.map f = b.map f → zipWith F a b = zipWith G a b
+  | [], [], _ => rfl
+  | [], _ :: _, h => by simp at h
+  | _ :: _, [], h => by simp at h
+  | x :: a, y :: b, h => by
+    simp only [map_cons, cons.injEq] at h
+    simp only [zipWith_cons_cons, hp x y h.1, zipWith_congr_of_map f F G hp a b h.2]
+
 theorem length_eq_of_map_eq {α β κ} {f : α → κ} {g : β → κ} {a : List α} {b : List β} (h : a.map f = b.map g) :
     a.length = b.length := by
   have := congrArg List.length h
